@@ -103,8 +103,20 @@ class All16Bit(FiniteTask):
         emit(f"C28/{F}/all-65536-values-concrete", not bad, detail=f"bad={bad[:5]}", model={"bad": bad[:5]})
 
 
+# "The SCU and SCP decisions about whether a response is final follow that category": the deciding code is under contract in
+# C24 (SCU: the C-FIND / C-GET / C-MOVE response iterators stop exactly at the first response that is not Pending, the
+# Repository Query 0xB001 being the one documented exception) and C20 (SCP: the C-FIND SCP of the Q/R services sends responses
+# until the first status that is not Pending); those obligations are re-proved under this id
+RELABEL = {"C24/": "C28/finality-scu:", "C20/": "C28/finality-scp:"}
+
+
 def tasks(tier):
+    from contracts.C24 import WrapTask
+    from contracts import svc as S
+    from pyvc.repo import Repo
     ts = [CodeToCategory(), NegativeRejected(), Tables()]
+    ts += [WrapTask("find"), WrapTask("getmove")]
+    ts += [S.FindScpTask("C20/", table=t) for t in S.find_scp_tables(Repo()) if "QR_FIND" in str(t)]
     if tier == "thorough":
         ts.append(All16Bit())
     return ts
@@ -112,6 +124,10 @@ def tasks(tier):
 
 def replay(rec):
     from pyvc.replay import run_replay
+    oid = rec.get("id", "")
+    for pfx, src in (("C28/finality-scu:", "C24"), ("C28/finality-scp:", "C20")):
+        if oid.startswith(pfx):
+            return run_replay(src, dict(rec, id=f"{src}/" + oid[len(pfx):]))
     return run_replay("C28", rec)
 
 LEVEL_TEXT = ("code_to_category is executed symbolically from its AST for an arbitrary integer and proved equal to the "
